@@ -280,9 +280,26 @@ fn real_server_outputs(ctx: &Ctx, out: &mut Out, rng: &mut Rng) {
         let failing = k % 3 == 2;
         let mut pairs: Vec<(String, String)> = cfg.pairs().into_iter().map(|(a, b)| (a.to_string(), b)).collect();
         let mut what = "serving".to_string();
+        // the seed text in upper or mixed case (a valid spelling of the same 32 bytes)
+        if !failing && k % 4 == 1 {
+            let hx = hex(&seed);
+            let v = if k % 8 == 1 { hx.to_uppercase() } else { hx.chars().enumerate().map(|(i, c)| if i % 2 == 0 { c.to_ascii_uppercase() } else { c }).collect() };
+            pairs.retain(|(a, _)| a != "seed");
+            pairs.push(("seed".into(), v));
+            what = "serving (seed text in upper / mixed case)".into();
+            out.obs("real_server_runs_with_uppercase_seed_text", 1);
+        }
         if failing {
             let hx = hex(&seed);
-            let (kk, vv, w): (&str, String, &str) = match (k / 3) % 21 {
+            let (kk, vv, w): (&str, String, &str) = match (k / 3) % 29 {
+                21 => ("__raw__noseed_a", format!("seed:\n  '{}\"", hx), "YAML syntax error inside the seed value written on its own indented line"),
+                22 => ("__raw__noseed_b", format!("\"seed\": '{}\"", hx), "YAML syntax error in the seed value under a quoted key"),
+                23 => ("__raw__noseed_c", format!("{{seed: '{}\", batch_size: 1}}", hx), "YAML syntax error in the seed value inside a flow mapping"),
+                24 => ("__raw__noseed_d", format!("seed: '{}\"", hx), "YAML syntax error (mismatched quotes) in the seed value"),
+                25 => ("__raw__noseed_e", format!("seed: \"{}", hx), "unterminated quoted seed value"),
+                26 => ("__raw__noseed_f", format!("seed: >\n  {}\n {}", &hx[..32], &hx[32..]), "seed as a folded block scalar with broken indentation"),
+                27 => ("seed", format!("__hexbytes__{}a0", hex(hx.as_bytes())), "ENV seed followed by a byte that is not valid UTF-8"),
+                28 => ("seed", format!("__hexbytes__ff{}", hex(hx.as_bytes())), "ENV seed preceded by a byte that is not valid UTF-8"),
                 14 => ("seed", format!("[{}]", hx), "seed written as a YAML sequence"),
                 15 => ("seed", format!("{{value: {}}}", hx), "seed written as a YAML mapping"),
                 16 => ("__raw__misspelt", format!("sead: {}", hx), "the seed under a misspelt key"),
@@ -308,6 +325,12 @@ fn real_server_outputs(ctx: &Ctx, out: &mut Out, rng: &mut Rng) {
             if kk.starts_with("__raw__") {
                 cfg.via_env = false;
             }
+            if kk.starts_with("__raw__noseed") {
+                pairs.retain(|(a, _)| a != "seed");
+            }
+            if vv.starts_with("__hexbytes__") {
+                cfg.via_env = true;
+            }
             pairs.retain(|(a, _)| a != kk);
             pairs.push((kk.to_string(), vv));
             what = format!("failing start-up: {}", w);
@@ -318,6 +341,11 @@ fn real_server_outputs(ctx: &Ctx, out: &mut Out, rng: &mut Rng) {
         };
         if !failing {
             if sp.wait_ready(&pk, Duration::from_secs(10)).is_err() {
+                // whatever it printed on the way down is output all the same
+                sp.kill();
+                let o = sp.output();
+                let rp = || json!({"kind":"real-server-output","what":format!("{} (did not come up)", what),"source": if cfg.via_env {"ENV"} else {"file"}});
+                scan(out, o.as_bytes(), &nd, "real-server-output(failed-to-serve)", &rp);
                 out.inconclusive("real server not ready");
                 continue;
             }
